@@ -43,10 +43,10 @@ Theorem C01_raw_delivered : forall bufsize bypp header g w h,
   exists chunks, raw_send bufsize bypp header g = Ok chunks.
 Proof. exact raw_send_ok. Qed.
 
-(* full statement would be: every rectangle is delivered.  It fails for lines longer than the
-   update buffer (w * bytesPerPixel > UPDATE_BUF_SIZE): the server logs "send buffer too small"
-   and closes the client after having announced the rectangle *)
-Theorem C01_raw_line_exceeds_buffer_refuted : forall bufsize bypp header g w h,
+(* regression witness of finding F4 (fixed by a3e0ace): BEFORE the fix the whole-line loop gave up on a line
+   longer than the update buffer (w * bytesPerPixel > UPDATE_BUF_SIZE): "send buffer too small", client
+   closed after the rectangle had been announced.  The repaired flow is C01_send_rect_repaired below. *)
+Theorem C01_raw_line_exceeds_buffer_before_fix_refuted : forall bufsize bypp header g w h,
   wf_grid w h g -> 1 <= h -> bufsize < bypp * w -> raw_send bufsize bypp header g = Fallback.
 Proof. exact raw_send_too_wide. Qed.
 
@@ -316,9 +316,31 @@ Example C01_session_nonvacuous :
     /\ length wire = 2.
 Proof. eexists. split; [vm_compute; reflexivity|reflexivity]. Qed.
 
-(* ---- finding F4 repaired (notes/fix_C01_5.diff: a Raw line longer than the update buffer goes out in pieces):
-   the repaired dispatch never closes the client, what it sends instead of closing decodes to the framebuffer,
-   and where send_rect delivers nothing changes ---- *)
+(* ---- THE DISPATCH OF /repo HEAD (a3e0ace: a Raw line longer than the update buffer goes out in pieces;
+   send_rect_split is what the driver runs): for EVERY well-formed request, however wide, and every encoding
+   of send_rect, rectangles are sent (never "client closed", never the model's Err), each decodes to the
+   framebuffer, they lie inside the request, partition it, and are bytes ---- *)
+Theorem C01_send_rect_repaired : forall W H scr p x y w h,
+  wf_grid W H scr -> grid_pix_ok (p_bypp p) scr -> 1 <= p_bypp p ->
+  x + w <= W -> y + h <= H -> 1 <= w -> 1 <= h -> (Z.of_nat w < 65536)%Z -> (Z.of_nat h < 65536)%Z ->
+  1 <= p_mw p <= 255 -> 1 <= p_mh p <= 255 ->
+  (p_enc p = c_encZRLE -> p_b15 p = false /\ Forall (Forall (cpix_ok (p_bypp p) (p_cmode p))) scr) ->
+  In (p_enc p) [c_encRaw; (-1)%Z; c_encRRE; c_encCoRRE; c_encHextile; c_encZlib; c_encUltra; c_encZRLE] ->
+  exists rects, send_rect_split p x y w h scr = Ok rects /\
+    Forall (rect_ok (p_bypp p) (p_cmode p) scr) rects /\
+    Forall (fun r => x <= w_x r /\ y <= w_y r) rects /\
+    partitions w h (rel_geoms x y rects) /\
+    Forall (fun r => bytes_ok (wire_bytes r)) rects.
+Proof. exact send_rect_split_full. Qed.
+
+(* non-vacuity: a 3-pixel line through a dispatch whose buffer holds 32768 bytes is untouched; the wide case is
+   exercised by the correspondence run (corpus/C01/F4_raw_line_8193px.json) *)
+Example C01_send_rect_repaired_nonvacuous :
+  send_rect_split (mkParams 0 1 1 48 48 0 false) 0 0 3 1 [[1; 2; 3]]%Z = Ok [mkW 0 0 3 1 0 [1; 2; 3]%Z].
+Proof. vm_compute. reflexivity. Qed.
+
+(* relation of the repaired dispatch to the old one: it never closes the client, what it sends instead of closing
+   decodes to the framebuffer, and where send_rect delivered nothing changes *)
 Theorem C01_raw_wide_repaired : forall W H scr p x y w h,
   wf_grid W H scr -> grid_pix_ok (p_bypp p) scr -> x + w <= W -> y + h <= H ->
   send_rect_split p x y w h scr <> Fallback /\
